@@ -21,8 +21,14 @@ def check(run):
              'requires that a run of values is open; nulls never emit their own index')
     for cfg in configs(run):
         F = run.facts(cfg)
+        # helpers this property stands on (rule sets owned by other properties, see common.deps)
+        from common import deps as _deps
+        _deps(run, F, 'isnone')
         vcut(run, F)
         unique(run, F)
+    # every container the generic code can be instantiated with hands out its elements in logical order
+    from common import dep_backends as _dep_backends
+    _dep_backends(run)
     return run.finish(
         'other',
         'vcut: closedness of the two interval tests, first-match-wins, null -> null label, '
